@@ -226,8 +226,12 @@ struct CFam {
                 bool const pos_ok = !with_pos || epos == spos;
                 if (ev == sv && pos_ok) { continue; }
                 char ec[24] = "same", sym[96];
-                if (with_pos) { end_cls(ec, sizeof ec, (long long)epos, (long long)spos); }
-                std::snprintf(sym, sizeof sym, "value:%s,pos:%s", value_cls(ev, sv), ec);
+                if (with_pos) {
+                    end_cls(ec, sizeof ec, (long long)epos, (long long)spos);
+                    std::snprintf(sym, sizeof sym, "value:%s,pos:%s", value_cls(ev, sv), ec);
+                } else {
+                    std::snprintf(sym, sizeof sym, "value:%s", value_cls(ev, sv));
+                }
                 vf::diverge(sym, "value=" + vs(ev) + " pos=" + (with_pos ? vf::to_s((long long)epos) : std::string("-")),
                     "value=" + vs(sv) + " pos=" + vf::to_s((long long)spos));
             } else if (!with_pos) {
